@@ -158,6 +158,12 @@ static int run_in_child(void (*fn)(vh_rng *), struct bcase *cases, int n)
 		if (r < 0 && errno != EINTR) break;
 		clock_gettime(CLOCK_MONOTONIC, &t1);
 		if (t1.tv_sec - t0.tv_sec > 120) {   /* generous watchdog: inconclusive, never a verdict */
+			{
+				/* diagnostics only: where are the case process and its children blocked? */
+				char cmd[400];
+				snprintf(cmd, sizeof(cmd), "for p in %d $(pgrep -P %d); do for t in /proc/$p/task/*; do echo \"WATCHDOG-DIAG pid=$p $(cat $t/comm) wchan=$(cat $t/wchan) syscall=$(cut -d' ' -f1 $t/syscall) state=$(grep State $t/status|cut -f2)\"; done; done 1>&2", (int)pid, (int)pid);
+				if (system(cmd)) { }
+			}
 			kill(pid, SIGKILL);
 			killed = 1; watchdog_fired++;
 			vh_stat("watchdog_kills");
@@ -191,7 +197,11 @@ static int run_in_child(void (*fn)(vh_rng *), struct bcase *cases, int n)
 		while ((nl = strchr(s, '\n'))) { *nl = 0; parse_child_line(s, childexit, sizeof(childexit)); s = nl + 1; }
 		free(obuf);
 	}
-	if (killed) return n;   /* inconclusive run: the harness exits non-zero after DONE */
+	if (killed) {
+		/* vh_cur_case was set by the last BEGIN line: that case was running when the watchdog fired */
+		fprintf(stderr, "WATCHDOG: batch of %d cases starting at %ld killed, %ld finished, case %ld was running\n", n, cases[0].idx, batch_completed, vh_cur_case);
+		return n;
+	}   /* inconclusive run: the harness exits non-zero after DONE */
 	/* a sanitizer / assertion report on stderr is keyed by vlib from the text; anything else abnormal is keyed here */
 	if (WIFSIGNALED(status)) {
 		if (!report) vh_viol(WTERMSIG(status) == SIGABRT ? "crash:child-signal6" : "crash:child-signal", "case process killed by signal %d; stderr tail: %.600s", WTERMSIG(status), ebuf);
@@ -503,11 +513,12 @@ static void step_to_idle(void)
 		}
 	}
 	for (S = 0; S < NSIGS; S++) if (pend0[S] > 0) { c_stat("batches"); if (pend0[S] > 1) c_stat("batches_multi"); }
-	if (r != 0) {
+	if (r != 0 && !mech_sigfd) {
 		/* CALIBRATED: with no event left the loop returns 1 without polling; deliveries already taken by the
 		 * library (self-pipe bytes) stay in flight and are reported to whichever event of that signal is
 		 * added when they are finally read.  Total calls still never exceed total deliveries, so the credit
-		 * is carried to the next real idle point instead of being dropped here. */
+		 * is carried to the next real idle point instead of being dropped here.  (Not so with signalfd: once
+		 * no event is left every signalfd is closed and the signals are unblocked - nothing can be in flight.) */
 		c_stat("steps_loop_had_no_events");
 		return;
 	}
